@@ -758,6 +758,14 @@ class ComponentRefFlattener(TreeListener):
         if self.depth > self.cutoff_depth:
             return
 
+        if getattr(tree, "_flattened", False):
+            # Already renamed to its full flat name while flattening a nested
+            # instance. Prefixing it again would be wrong, and can even hit
+            # another existing variable when an instance name repeats on the
+            # path (a.b.p -> a.a.b.p).
+            self.cutoff_depth = self.depth
+            return
+
         # Compose flatted name
         new_name = self.instance_prefix + tree.name
         c = tree
@@ -774,6 +782,7 @@ class ComponentRefFlattener(TreeListener):
         # below.
         if new_name in self.container.symbols and self.inside_modification == 0:
             tree.name = new_name
+            tree._flattened = True
             c = tree
             while len(c.child) > 0:
                 c = c.child[0]
